@@ -19,12 +19,13 @@ func genC15(rt *rapid.T) *FmtCase {
 		n = []int{255, 256, 257, 258, 300, 513}[rapid.IntRange(0, 5).Draw(rt, "nmany")] // a very long format
 	}
 	missing := false
+	many := n > 100
 	for i := 0; i < n; i++ {
 		if rapid.IntRange(0, 2).Draw(rt, "haslit") > 0 {
 			c.Segs = append(c.Segs, Seg{Lit: fc.genLit(rt)})
 		}
 		d := fc.genDirective(rt)
-		isW := rapid.IntRange(0, 9).Draw(rt, "isw") < 5
+		isW := rapid.IntRange(0, 9).Draw(rt, "isw") < 5 || many
 		if isW {
 			d.Verb = B("w")
 		}
